@@ -52,7 +52,7 @@ class C10(Check):
     nontrivial_rule = ("a problem with a connective / optional constraint / user expression returned a schedule (formula evaluated), or a "
                        "reference-valid candidate was pinned on it")
     expected_probes = ["kind:Not", "kind:And", "kind:Or", "kind:Xor", "kind:Implies", "kind:IfThenElse", "kind:ConstraintFromExpression",
-                       "kind:ForceApplyNOptionalConstraints", "optional_constraint", "pin_admitted", "pinned_violates_operand_alone", "nested", "optional_operand"]
+                       "kind:ForceApplyNOptionalConstraints", "optional_constraint", "pin_admitted", "pinned_violates_operand_alone", "nested", "optional_operand", "python_bool_condition"]
 
     def profile(self, rng, tier):
         big = tier == "thorough"
@@ -129,6 +129,8 @@ class C10(Check):
             if c["kind"] in LOGIC or c["kind"] in ("ConstraintFromExpression", "ForceApplyNOptionalConstraints"):
                 v.probe("kind:" + c["kind"])
                 mine = True
+                if isinstance(c.get("cond"), list) and c["cond"][0] == "py":
+                    v.probe("python_bool_condition")
             if c.get("optional"):
                 v.probe("optional_constraint")
                 mine = True
